@@ -1,6 +1,7 @@
 """Virtual machine for executing JavaScript bytecode."""
 
 import math
+import threading
 import time
 from typing import Any, Dict, List, Optional, Tuple, Union
 from dataclasses import dataclass
@@ -45,6 +46,11 @@ MAX_NATIVE_DEPTH = 100
 # Longest string repeat() builds; longer results are refused with RangeError like an
 # invalid count (the host would fail with OverflowError or MemoryError instead)
 MAX_STRING_LENGTH = 2**30 - 25
+
+# The interpreters executing on this thread, innermost last (VM.run). A native made by
+# one evaluation - a method value such as [1, 2].forEach, "abc".replace or f.call - can be
+# kept in a global and called by a later evaluation, when its interpreter has ended.
+_running = threading.local()
 
 # Verification hook: stays None (one comparison per instruction) unless a
 # harness installs a callback while MICROJS_VERIF=1 is set in the environment.
@@ -199,10 +205,24 @@ class VM:
         )
         self.call_stack.append(frame)
 
+        active = _running.__dict__.setdefault("vms", [])
+        active.append(self)
         try:
             return self._execute()
-        except Exception as e:
-            raise
+        finally:
+            active.pop()
+
+    def _live(self) -> "VM":
+        """This interpreter, or the one executing now if this one has ended.
+
+        Natives are closures over the interpreter whose property read made them. Script
+        code they call (callbacks) must run on the interpreter that is executing - its
+        exception handlers, call stack, deadline - not on one that has ended.
+        """
+        active = getattr(_running, "vms", None)
+        if active and not any(vm is self for vm in active):
+            return active[-1]
+        return self
 
     def share_budget(self, parent: "VM") -> None:
         """Make this nested evaluation (eval, Function) spend its parent's budget.
@@ -2280,9 +2300,10 @@ class VM:
                 # Convert string to regex using microjs.regex
                 # Create a poll_callback if the VM has time limits
                 poll_callback = None
-                if self.time_limit is not None:
+                live = self._live()
+                if live.time_limit is not None:
                     poll_callback = (
-                        lambda: time.monotonic() - self.start_time > self.time_limit
+                        lambda: time.monotonic() - live.start_time > live.time_limit
                     )
                 # built like new RegExp(pattern): a malformed pattern is a SyntaxError
                 regex_internal = JSRegExp(to_string(pattern), "", poll_callback)._internal
@@ -2356,9 +2377,10 @@ class VM:
             else:
                 # Convert string to regex using microjs.regex
                 poll_callback = None
-                if self.time_limit is not None:
+                live = self._live()
+                if live.time_limit is not None:
                     poll_callback = (
-                        lambda: time.monotonic() - self.start_time > self.time_limit
+                        lambda: time.monotonic() - live.start_time > live.time_limit
                     )
                 # built like new RegExp(pattern): a malformed pattern is a SyntaxError
                 regex_internal = JSRegExp(to_string(pattern), "", poll_callback)._internal
@@ -2574,6 +2596,9 @@ class VM:
         self, callback: JSValue, args: List[JSValue], this_val: JSValue = None
     ) -> JSValue:
         """Call a callback function synchronously and return the result."""
+        live = self._live()
+        if live is not self:
+            return live._call_callback(callback, args, this_val)
         if not isinstance(callback, JSFunction):
             return self._run_callback(callback, args, this_val)
         if self.native_depth >= MAX_NATIVE_DEPTH:
